@@ -134,6 +134,16 @@ func (cr *checkRunner) checkStates(ctx context.Context, checks []module.Check) (
 				if repeated {
 					return module.CheckResult{}
 				}
+				if res.Reject {
+					// The replayed recipient got its reply long ago and
+					// it is not the one being processed now (if it is,
+					// checkRcpt repeats the decision right after this).
+					// Refusing the current command because of it would
+					// blame the wrong recipient.
+					cr.log.Msg("check rejects a replayed recipient, not applied to the current command",
+						"check", objectName(s), "replayed_rcpt", rcpt, "reason", res.Reason)
+					res.Reject = false
+				}
 				return res
 			})
 			if err != nil {
